@@ -246,10 +246,16 @@ def _worker_factory(fn):
         for fam, t in chunk:
             try:
                 fn(fam, t, st)
-            except Exception as ex:  # internal error in the harness: surface loudly, not as a violation
-                st.inc("internal_errors")
-                st.sample({"internal_error": f"{type(ex).__name__}: {ex}", "term": M.show(t)}, cap=3)
-                raise
+            except Exception as ex:  # noqa: BLE001
+                from .core import raised_in_library
+                if raised_in_library(ex):
+                    # the library let a foreign exception escape in a place where the oracle expects the
+                    # property's behaviour (a number, an expression, DomainError, CoordinateMissing)
+                    st.violation(case(t, {}, "tree", "oracle", "the behaviour the property states", None,
+                                      f"the library raised {type(ex).__name__}: {str(ex)[:160]} while the check exercised this term"))
+                else:   # defect of the harness: surface loudly, never as a violation
+                    st.inc("internal_errors")
+                    raise
             st.inc("terms")
             st.inc("terms_" + fam)
             if st.c.get("terms", 0) % 97 == 1:
